@@ -539,3 +539,37 @@ Section Once.
     intros H Hg. apply (getitem_next_hit _ c k h). apply crun_keeps; [exact Hg|]. eapply get_plain_stores; eauto.
   Qed.
 End Once.
+
+(* ---- the model's getitem follows the decision chain (code_action_of) that Gen/Leaf.v regenerates from the source ---- *)
+Section Action.
+  Variable sub : nat -> nat -> bool.
+  Variable hasm : nat -> nat -> bool.
+  Variable chk : nat -> nat -> bool.
+  Variable sub_fresh : nat -> bool.
+
+  Definition is_some {X} (o : option X) : bool := match o with Some _ => true | None => false end.
+
+  Definition run_action (st1 : cstate) (q : qkey) (h : nat) (a : code_action) : outcome :=
+    match a with
+    | CA_plain => ORun h
+    | CA_error => match assoc_q q (cs_err st1) with Some g => OAmbig g | None => ONoMethod end
+    | CA_entry => match assoc_q q (cs_dict st1) with Some h2 => ORun h2 | None => ONoMethod end
+    | CA_nomethod => ONoMethod
+    end.
+
+  Lemma getitem_follows_action st c k st1 h r cands :
+    assoc_q (mkQ (Some c) k) (cs_dict st) = None ->
+    get_plain sub hasm chk sub_fresh st k = (st1, ORun h, r) ->
+    assoc_k k (cs_all st1) = Some cands ->
+    getitem sub hasm chk sub_fresh st (mkQ (Some c) k) =
+      (st1, run_action st1 (mkQ (Some c) k) h
+              (code_action_of (negb (memb c cands)) (is_some (assoc_q (mkQ (Some c) k) (cs_err st1)))
+                              (is_some (assoc_q (mkQ (Some c) k) (cs_dict st1)))), r).
+  Proof.
+    intros Hmiss Hp Hall. unfold Cache.getitem. simpl q_caller. simpl q_key. rewrite Hmiss, Hp, Hall.
+    unfold code_action_of, run_action.
+    destruct (negb (memb c cands)); [reflexivity|].
+    destruct (assoc_q (mkQ (Some c) k) (cs_err st1)); [reflexivity|]. simpl is_some.
+    destruct (assoc_q (mkQ (Some c) k) (cs_dict st1)); reflexivity.
+  Qed.
+End Action.
